@@ -327,9 +327,7 @@ def _sigclass(sig):
         return str(e).split()[0]
 
 
-def _task_families(thorough):
-    meter.trace_allocations()
-    res = core.Result()
+def _family_list(thorough):
     fam = []
     # zero-size elements at every nesting shape
     for s in ('a()', 'a{}', 'a(())', 'a(()())', 'a{()()}', 'aa()', 'a(a())',
@@ -434,6 +432,13 @@ def _task_families(thorough):
         for name, fn in scalable_families():
             if name.startswith('repeat'):
                 fam.append((name, fn(m)))
+    return fam
+
+
+def _task_families(thorough):
+    meter.trace_allocations()
+    res = core.Result()
+    fam = _family_list(thorough)
     for tag, raw in fam:
         rep = {'part': 'mut', 'raw': raw.hex() if len(raw) < 4000 else
                None, 'family': tag}
@@ -441,6 +446,97 @@ def _task_families(thorough):
         check_protocol(res, raw, tag, rep)
     res.count('states', len(fam))
     res.count('nontrivial', len(fam))
+    return res
+
+
+def _good_messages():
+    """what other peers send while a hostile one is at work: the base
+    messages and nesting up to what the specification allows"""
+    E = R.encode_message
+    out = list(base_messages())
+    v = Var('y', 7)
+    for _ in range(40):
+        v = Var('v', v)
+    out.append(E(1, 20, {'path': '/a', 'member': 'M'}, 'v', [v]))
+    sig = 'a' * 31 + '(' * 31 + 'y' + ')' * 31
+    val = 5
+    for _ in range(31):
+        val = [val]
+    for _ in range(31):
+        val = [val]
+    out.append(E(1, 21, {'path': '/a', 'member': 'M'}, sig, [val],
+                 little=False))
+    v = Var('(y)', [1])
+    for i in range(20):
+        v = Var('a{sv}', [['k', v]]) if i % 2 else Var('(v)', [v])
+    out.append(E(4, 22, {'path': '/a', 'member': 'S', 'interface': 'a.b'},
+                 'v', [v]))
+    return out
+
+
+def _summary(raw):
+    from txdbus import message as M
+    try:
+        m = M.parseMessage(raw, [3, 4])
+        return ('ok', type(m).__name__, m.serial, repr(m.body),
+                getattr(m, 'member', None), getattr(m, 'path', None))
+    except Exception as e:
+        return ('exc', type(e).__name__)
+
+
+def _task_aftermath(task):
+    """rejecting a hostile message costs that peer its connection and
+    nothing else: after the same hostile bytes were presented 70 times (70
+    hostile connections), the messages of well-behaved peers decode as they
+    did in the fresh process"""
+    from txdbus import message as M
+    part, nparts = task
+    res = core.Result()
+    goods = _good_messages()
+    fresh = [_summary(g) for g in goods]
+    for i, f in enumerate(fresh):
+        if f[0] != 'ok':
+            res.violation('%s/aftermath/good-message-refused/%d' % (PROP, i),
+                          'a valid message (nesting within the limits of the '
+                          'specification) is refused in a fresh process: %r'
+                          % (f,), {'part': 'aftermath'}, size=1)
+    seen = set()
+    fam = []
+    for tag, raw in _family_list(False):
+        if raw in seen or len(raw) > 6000:
+            continue
+        seen.add(raw)
+        fam.append((tag, raw))
+    for tag, raw in fam[part::nparts]:
+        res.count('states')
+        res.count('nontrivial')
+        for k in range(70):
+            res.count('transitions')
+            try:
+                M.parseMessage(raw, [3, 4])
+            except Exception:
+                pass
+        # through connections as well
+        from mcx.checks import c04
+        for k in range(3):
+            proto, _t = c04.make_server()
+            proto.dataReceived(c04.SERVER_HS)
+            try:
+                proto.dataReceived(raw)
+            except Exception:
+                pass
+        res.count('evaluations')
+        after = [_summary(g) for g in goods]
+        if after != fresh:
+            bad = [i for i in range(len(goods)) if after[i] != fresh[i]]
+            res.violation('%s/aftermath/%s' % (PROP, tag.split(':')[0]),
+                          'after 70 presentations of a hostile message '
+                          '(family %s, %d bytes) valid messages %r no '
+                          'longer decode as before: %r instead of %r'
+                          % (tag, len(raw), bad, after[bad[0]],
+                             fresh[bad[0]]), {'part': 'aftermath'},
+                          size=len(raw))
+            break
     return res
 
 
@@ -641,7 +737,10 @@ def run(ctx):
         'signature inside a variant. Families: zero-size array elements at '
         'every nesting shape, nesting depth 32..254, unterminated '
         'containers, lying lengths on 20 kB%s inputs. The same bytes go '
-        'through BasicDBusProtocol.dataReceived. state = distinct input; '
+        'through BasicDBusProtocol.dataReceived. Aftermath: each family '
+        'presented 70 times, then valid messages (40 nested variants, 31 '
+        'arrays of 31 structs, the base messages) decode as in the fresh '
+        'process. state = distinct input; '
         'transition = one parse/deliver call'
         % ('' if ctx.quick else ', 800, 2000',
            len(base_messages()), '{00,01,7f,80,ff,low-bit flip,a(){}vysg}',
@@ -660,6 +759,7 @@ def run(ctx):
     ctx.map(_task_sigs, [(c, L) for c in SIG_ALPHABET])
     ctx.map(_task_families, [not ctx.quick])
     ctx.map(_task_bus_victim, [(i, 4) for i in range(4)])
+    ctx.map(_task_aftermath, [(i, 16) for i in range(16)])
     sizes = (50, 200) if ctx.quick else (50, 200, 800, 2000)
     ctx.map(_task_scaling, [(i, sizes)
                             for i in range(len(scalable_families()))])
@@ -674,6 +774,9 @@ def replay(data):
             raw = bytes.fromhex(data['raw'])
             check_parse(res, raw, 'replay', data)
             check_protocol(res, raw, 'replay', data)
+    elif data['part'] == 'aftermath':
+        for i in range(16):
+            res.merge(_task_aftermath((i, 16)))
     elif data['part'] == 'victim':
         for i in range(4):
             res.merge(_task_bus_victim((i, 4)))
